@@ -29,8 +29,21 @@ class CaseViolation(Exception):
 # ----------------------------------------------------------------------------------------------
 # executing one case
 # ----------------------------------------------------------------------------------------------
+_CTRL_CACHE = {}
+
+
 def control_record(steps, probe_seed):
-    """the hand-off record of the last trigger of a (well-posed) step list, None if it does not get there"""
+    """the hand-off record of the last trigger of a (well-posed) step list, None if it does not get there
+    (memoised: the cases of one unit share a handful of control step lists)"""
+    key = (probe_seed, json.dumps(steps, sort_keys=True))
+    if key not in _CTRL_CACHE:
+        if len(_CTRL_CACHE) > 64:
+            _CTRL_CACHE.clear()
+        _CTRL_CACHE[key] = _control_record(steps, probe_seed)
+    return _CTRL_CACHE[key]
+
+
+def _control_record(steps, probe_seed):
     seam = S.SolverSeam(probe_seed)
     seam.install()
     act = Actor("A")
